@@ -15,13 +15,14 @@ import (
 
 // idxOp is one operation of an index history.
 type idxOp struct {
-	// Kind: add | build | reset | contains | crossings | closest | cells | counts
+	// Kind: add | build | reset | contains | crossings | closest | cells | counts | locate
 	Kind  string
 	Shape int    // add: pool position
 	P     gen.P  // contains: the point; crossings: edge start
 	B     gen.P  // crossings: edge end
 	Model int    // contains: vertex model 0..2
 	All   bool   // crossings: CrossingTypeAll
+	Cell  uint64 // locate: the cell for LocateCellID
 	T     tspec  // closest: target
 	Cfg   qcfg   // closest: options
 	M     string // closest: FindEdges | Distance
@@ -82,6 +83,10 @@ func genIndexHistory(t *rapid.T) idxHistory {
 			op = idxOp{Kind: "closest", T: ts, Cfg: cfg, M: rapid.SampledFrom([]string{"FindEdges", "FindEdges", "Distance"}).Draw(t, l+".m")}
 		case k == 18:
 			op = idxOp{Kind: "cells"}
+			if rapid.Bool().Draw(t, l+".locate") {
+				p := gen.ProbePoints(t, l+".lp", verts, 1)[0]
+				op = idxOp{Kind: "locate", P: p, Cell: uint64(s2.CellFromPoint(p.Pt()).ID().Parent(rapid.IntRange(0, 30).Draw(t, l+".lvl")))}
+			}
 		default:
 			op = idxOp{Kind: "counts"}
 		}
@@ -283,6 +288,34 @@ func runIndexHistory(c idxHistory) ev.Outcome {
 			}
 		case "cells":
 			msg = compareCells(hist, fresh)
+		case "locate":
+			id := s2.CellID(op.Cell)
+			if !id.IsValid() {
+				o.Skip = true
+				return o
+			}
+			locate := func(idx *s2.ShapeIndex) string {
+				it := idx.Iterator()
+				ok := it.LocatePoint(op.P.Pt())
+				s := fmt.Sprintf("LocatePoint=%v", ok)
+				if ok {
+					s += " at " + it.CellID().String()
+				}
+				it2 := s2.NewShapeIndexIterator(idx, s2.IteratorBegin)
+				rel := it2.LocateCellID(id)
+				s += fmt.Sprintf(" LocateCellID(%v)=%v", id, rel)
+				if rel != s2.Disjoint {
+					s += " at " + it2.CellID().String()
+				}
+				e := idx.End()
+				if e.Prev() {
+					s += " last=" + e.CellID().String()
+				}
+				return s
+			}
+			if g, w := locate(hist), locate(fresh); g != w {
+				msg = fmt.Sprintf("%s, fresh index says %s", g, w)
+			}
 		case "counts":
 			if g, w := hist.Len(), fresh.Len(); g != w || g != len(model) {
 				msg = fmt.Sprintf("Len() = %d, fresh index %d, model %d", g, w, len(model))
